@@ -329,8 +329,15 @@ func (s *Store) Instantiate(
 		return nil, err
 	}
 
+	// Attach the close notifier before the module becomes visible to Store.CloseWithExitCode:
+	// otherwise a concurrent close of the store could miss the notification.
+	if closeNotifier, ok := ctx.Value(expctxkeys.CloseNotifierKey{}).(experimental.CloseNotifier); ok {
+		m.CloseNotifier = closeNotifier
+	}
+
 	// Now that the instantiation is complete without error, add it.
 	if err = s.registerModule(m); err != nil {
+		m.CloseNotifier = nil // never visible to the caller: nothing to notify.
 		_ = m.Close(ctx)
 		return nil, err
 	}
